@@ -476,6 +476,29 @@ func c12_3(c *core.Ctx, p *core.Prog) {
 	} else if b1 != b2 || b1 != b3 {
 		msgs = append(msgs, "schema key and payload type are taken from different builders")
 	}
+	// the schema id is read after the builder was built (building is where a related record's schema evolves)
+	var buildCall, sidCall *ssa.Call
+	core.EachInstr(fn, func(i ssa.Instruction) {
+		if cl, ok := i.(*ssa.Call); ok && cl.Call.IsInvoke() {
+			switch cl.Call.Method.Name() {
+			case "Build":
+				buildCall = cl
+			case "SchemaID":
+				sidCall = cl
+			}
+		}
+	})
+	if buildCall != nil && sidCall != nil {
+		before := false
+		if buildCall.Block() == sidCall.Block() {
+			before = core.InstrIndex(sidCall) < core.InstrIndex(buildCall)
+		} else {
+			before = !core.MustPassBetween(fn, nil, sidCall, func(i ssa.Instruction) bool { return i == ssa.Instruction(buildCall) })
+		}
+		if before {
+			msgs = append(msgs, "the builder's schema id is read before Build(): Build is where the related record's schema evolves, so the message carries the pre-evolution id and the new-schema record is written to the old sub-stream's IPC writer")
+		}
+	}
 	usesPrefix, usesColon := false, false
 	core.BackSlice(keyArg, func(x ssa.Value) bool {
 		if cl, ok := x.(*ssa.Call); ok && cl.Call.StaticCallee() != nil && cl.Call.StaticCallee().Name() == "SchemaPrefix" {
